@@ -177,6 +177,65 @@ fn statement_for(x: &str, e: &str, te: &Ty, atomic: bool, top: &mut Vec<String>,
     }
 }
 
+/// Declarations for an assignment target of declared type `c.b` reached by the path shape `c.op`
+/// ("v:mem.mem", "p:pmem.mem", ...); returns the text of the place.
+fn path_target(c: &Cell, top: &mut Vec<String>, params: &mut Vec<String>, locals: &mut Vec<String>) -> String {
+    let (base, shape) = c.op.split_once(':').unwrap_or(("v", "mem"));
+    let bt = ty::syntax(&c.b);
+    // a value of the type of the place (for the initialisers of local targets)
+    let bv = if ty::is_prim(&c.b) {
+        ty::literal(&c.b[0], 3)
+    } else {
+        locals.push("\tvar bv: i32 = 1i32;".to_string());
+        "&bv".to_string()
+    };
+    let inn = format!("In {{ x: {bv}, y: 2i32 }}");
+    // (type of the base, initialiser of a local base, path text)
+    let (tt, init, path): (String, String, &str) = match shape {
+        "elem" => (format!("[2]{bt}"), format!("[{bv}, {bv}]"), "[1usize]"),
+        "mem" => {
+            top.push(format!("struct In {{ x: {bt}, y: i32 }}"));
+            ("In".to_string(), inn.clone(), ".x")
+        }
+        "mem.mem" => {
+            top.push(format!("struct In {{ x: {bt}, y: i32 }}"));
+            top.push("struct Out { id: i32, inner: In }".to_string());
+            ("Out".to_string(), format!("Out {{ id: 1i32, inner: {inn} }}"), ".inner.x")
+        }
+        "mem.elem.mem" => {
+            top.push(format!("struct In {{ x: {bt}, y: i32 }}"));
+            top.push("struct Out { id: i32, items: [2]In }".to_string());
+            ("Out".to_string(), format!("Out {{ id: 1i32, items: [{inn}, {inn}] }}"), ".items[1usize].x")
+        }
+        "pmem.mem" => {
+            top.push(format!("struct In {{ x: {bt}, y: i32 }}"));
+            top.push("struct Out { id: i32, inner: &In }".to_string());
+            locals.push(format!("\tvar inn: In = {inn};"));
+            ("Out".to_string(), "Out { id: 1i32, inner: &inn }".to_string(), ".inner.x")
+        }
+        "mem.mem.elem" => {
+            top.push(format!("struct In {{ arr: [2]{bt}, y: i32 }}"));
+            top.push("struct Out { id: i32, inner: In }".to_string());
+            ("Out".to_string(), format!("Out {{ id: 1i32, inner: In {{ arr: [{bv}, {bv}], y: 2i32 }} }}"), ".inner.arr[1usize]")
+        }
+        "elem.mem" => {
+            top.push(format!("struct In {{ x: {bt}, y: i32 }}"));
+            ("[2]In".to_string(), format!("[{inn}, {inn}]"), "[1usize].x")
+        }
+        _ => {
+            // "mem.elem"
+            top.push(format!("struct In {{ arr: [2]{bt}, y: i32 }}"));
+            ("In".to_string(), format!("In {{ arr: [{bv}, {bv}], y: 2i32 }}"), ".arr[1usize]")
+        }
+    };
+    if base == "p" {
+        params.push(format!("o: &{tt}"));
+    } else {
+        locals.push(format!("\tvar o: {tt} = {init};"));
+    }
+    format!("o{path}")
+}
+
 pub fn render(c: &Cell) -> Rendered {
     let mut top: Vec<String> = Vec::new(); // declarations before the function
     let mut params: Vec<String> = Vec::new();
@@ -216,6 +275,11 @@ pub fn render(c: &Cell) -> Rendered {
             place(&c.a, "a", 1, &mut params, &mut locals);
             place(&c.b, "b", 4, &mut params, &mut locals);
             construct = format!("\t{} = {};", amp(c.kb, "b"), amp(c.ka, "a"));
+        }
+        "assignp" => {
+            place(&c.a, "a", 1, &mut params, &mut locals);
+            let target = path_target(c, &mut top, &mut params, &mut locals);
+            construct = format!("\t{}{} = {};", "&".repeat(c.kb), target, amp(c.ka, "a"));
         }
         "init" => {
             place(&c.a, "a", 1, &mut params, &mut locals);
